@@ -6,10 +6,10 @@ from common import wire, show_str
 import logging
 logging.getLogger('pylatexenc').setLevel(logging.CRITICAL)   # the library's own warnings are not part of the property
 
-THEOREMS = ['Pylx.L2T.C07_partial', 'Pylx.L2T.C07_render_total', 'Pylx.L2T.C07_cross_db', 'Pylx.L2T.C07_fmt_in_range',
+THEOREMS = ['Pylx.L2T.C07', 'Pylx.L2T.C07_parsed_args_length', 'Pylx.L2T.C07P.C07_parsed_args_length_generic', 'Pylx.L2T.C07P.C07_ctx_ok', 'Pylx.L2T.C07_partial', 'Pylx.L2T.C07_render_total', 'Pylx.L2T.C07_cross_db', 'Pylx.L2T.C07_fmt_in_range',
             'Pylx.L2T.renderNode_total', 'Pylx.L2T.applySpec_total', 'Pylx.L2T.applyCallable_total',
             'Pylx.L2T.C07_F7_href', 'Pylx.L2T.C07_F7_uebung', 'Pylx.L2T.C07_F7_input', 'Pylx.L2T.C07_F8_matrix', 'Pylx.L2T.C07_F9_bare']
-PROOF_MODULES = ['C07']
+PROOF_MODULES = ['C07P', 'C07']
 RULE = ('L2T: LatexNodes2Text(math_mode, strict_latex_spaces, keep_comments, keep_braced_groups(+minlen), fill_text).latex_to_text(s) on '
         'every string of <= k atoms over the LaTeX-significant alphabet, soups placing EVERY macro and environment name of the default '
         'walker and text databases in every argument position (bare, with empty / too few / too many arguments, as single-token argument '
@@ -351,10 +351,11 @@ def shrink_candidates(c):
         if c['o'].get(k) != v:
             yield {'s': s, 'o': dict(c['o'], **{k: v})}
 
-LEVEL_TEXT = ('Theorems about the renderer model Pylx.L2T (repaired switch on) with the generated default databases: C07_partial — for every option '
+LEVEL_TEXT = ('Theorems about the renderer model Pylx.L2T (repaired switch on) with the generated default databases: C07 — for every option '
               'set, every library oracle and every input string, latexToText returns ok (parse totality from C06_total_list; the parser invariant '
-              '"the tolerant parser only produces trees satisfying the argument-list invariant" is an explicit hypothesis, C07_parsed_args_length_stmt, '
-              'not yet derived from the parser model — it is exercised by the correspondence); C07_render_total: '
+              '"the parser only produces trees satisfying the argument-list invariant" is C07_parsed_args_length, proved from the parser model by '
+              'a contract over every task for every context with only node-valued argument kinds, instantiated for the default context by a '
+              'kernel-checked C07_ctx_ok); C07_render_total: '
               'on every such tree, for every option set, the renderer returns a string — structural induction over the tree with the '
               'kernel-checked cross-database fact C07_cross_db (every argument index a replacement callable reads is guarded or inside the '
               'walker signature of the same name, no unrecognised callable, no falsy specials replacement)); C07_fmt_in_range — every %-format '
